@@ -1,4 +1,4 @@
 SPECIFICATION Spec
-CONSTANTS Kinds <- KindsDef  MaxLen = 4
+CONSTANTS Kinds <- KindsDef  MaxLen = 4  Seqs <- AllSeqs
 INVARIANTS DescentMeetsGrammar PositionInside
 CHECK_DEADLOCK FALSE
